@@ -29,6 +29,10 @@ import PyamgV.Proofs.ExtC17R4MisK
 import PyamgV.Proofs.ExtC17R4Pairwise
 import PyamgV.Proofs.ExtC17R4Cljp
 import PyamgV.Proofs.ExtC17R4Fit
+import PyamgV.Proofs.ExtC17R4Pinv
+import PyamgV.Proofs.ExtC17R4Evo
+import PyamgV.Proofs.ExtC17R4Air
+import PyamgV.Proofs.ExtC17R4AirB
 import PyamgV.Proofs.ExtC18Bal
 import PyamgV.Proofs.Bfs
 import PyamgV.Proofs.CC
@@ -341,6 +345,46 @@ restate strided_pointer_loop_safe := PyamgV.C17R4.forStep_safe
 restate fit_candidates_second_pointer := PyamgV.C17R4.col_in
 /-- `fit_candidates` (the common template of the real and the complex kernel): any CSC pattern, any `K1`, `K2` -/
 restate fit_candidates_safe := PyamgV.C17R4.fitCandidates_safe
+/-! ### extension E32: the dense helpers of linalg.h and `pinv_array` (model `Model/ExtC17R4Svd.lean`) -/
+/-- `transpose` of an `m × n` block, every branch (the explicit 1×1, 2×2, 3×3 cases, the hand-unrolled square cases 4..10, the
+general loop) -/
+restate transpose_safe := PyamgV.C17R4.transposeM_safe
+/-- one column pair of a `svd_jacobi` sweep (all three branches: skip, swap, rotate) -/
+restate svd_jacobi_pair_safe := PyamgV.C17R4.svdPair_safe
+/-- the sweep loop `while( (count > 0) && (sweep <= sweepmax) )` terminates within `sweepmax + 1 - sweep` sweeps -/
+restate svd_jacobi_sweeps_terminate := PyamgV.C17R4.svdWhile_safe
+/-- `svd_jacobi` of an `m × n` block (`m ≥ n`, else the early return): `U` with `m·n`, `V` with `n²`, `S` with `n` entries -/
+restate svd_jacobi_safe := PyamgV.C17R4.svdJacobi_safe
+/-- `pinv_array`: `m` blocks of `n × n` values, both values of `TransA` -/
+restate pinv_array_safe := PyamgV.C17R4.pinvArray_safe
+/-! ### extension E32: `svd_solve` and `evolution_strength_helper` (model `Model/ExtC17R4Evo.lean`) -/
+/-- `svd_solve` of an `m × n` system with the three regions of `work` (`U`, `V`, `x`) as separate arrays -/
+restate svd_solve_safe := PyamgV.C17R4.svdSolve_safe
+/-- the computed `max_length` bounds every row length (the size of the work arrays `z`, `zhat`, `DBi`, `Bi`) -/
+restate evolution_strength_max_length := PyamgV.C17R4.esMaxLen_safe
+/-- the assembly of the local matrix `LHS` from the packed rows of `BDB` (offsets `tri`, see `calc_BtB_packed_offsets`) -/
+restate evolution_strength_lhs_safe := PyamgV.C17R4.esLhs_safe
+/-- `evolution_strength_helper`: any `NullDim`, `BDBCols ≥ NullDim(NullDim+1)/2` -/
+restate evolution_strength_helper_safe := PyamgV.C17R4.evolutionHelper_safe
+/-! ### extension E32: `QR`, `upper_tri_solve`, `least_squares`, `dense_GMRES` and `approx_ideal_restriction_pass2` (model
+`Model/ExtC17R4Air.lean`) -/
+/-- `QR` (Householder) of an `m × n` block, both storage orders: `A`, the local `Q` (`m²`) and `v` (`m - j`) -/
+restate qr_safe := PyamgV.C17R4.qrM_safe
+/-- `upper_tri_solve`, both storage orders, `m ≥ n` or `m < n` -/
+restate upper_tri_solve_safe := PyamgV.C17R4.upperTriSolve_safe
+/-- `least_squares` -/
+restate least_squares_safe := PyamgV.C17R4.leastSquares_safe
+/-- `dense_GMRES`, `maxiter ≥ 0`, with and without the diagonal preconditioning: `V` (`maxiter·n`), `H` (`maxiter·(maxiter+1)`), `g` (`n+1`) -/
+restate dense_gmres_safe := PyamgV.C17R4.denseGmres_safe
+/-- one row of `approx_ideal_restriction_pass2` -/
+restate approx_ideal_restriction_pass2_row_safe := PyamgV.C17R4.airP2Row_safe
+/-- `approx_ideal_restriction_pass2`: `Rp` as the first pass computes it (`RpOK`), `Rj`, `Rx` with `Rp[|Cpts|]` entries, both solvers -/
+restate approx_ideal_restriction_pass2_safe := PyamgV.C17R4.airPass2_safe
+/-- the hypothesis `RpOK` is what the first-pass model (`approx_ideal_restriction_pass1_safe`) returns -/
+restate approx_ideal_restriction_pass1_establishes_RpOK := PyamgV.C17R4.airPass1_establishes_RpOK
+/-- `block_approx_ideal_restriction_pass2` (model `Model/ExtC17R4AirB.lean`): any block size, `Ax` with `blocksize²` values per stored
+block, `Rx` with `blocksize²` values per entry of `Rj`, both solvers (QR + `upper_tri_solve` per row of a block / `dense_GMRES` on a copy) -/
+restate block_approx_ideal_restriction_pass2_safe := PyamgV.C17R4.airBPass2_safe
 /-- `bellman_ford_balanced` (executable model `Bal.kernel` / `Bal.wrapper` of `Model/ExtC18Bal.lean`, whose data dependent
 accesses `s[m[i]]`, `s[m[j]]`, `pc[p[j]]` are checked; driver ops `ext_c18_bfbal*`, compared with the kernel by this check
 too): on a structurally valid graph with positive weights on a grid coarser than the tolerance the public call never makes
@@ -433,6 +477,15 @@ terminate with the flag set; with `R` one entry short of `K2²` the run faults -
 def exFitOps : C17R4.FitOps Int := ⟨(· + ·), (· - ·), (· * ·), (· / ·), 0, 1, fun a => a * a, fun a b => b * a, id, fun a b => decide (b < a)⟩
 example : (C17R4.fitCandidates exFitOps 0 1 1 2 #[0,2] #[0,1] #[7,7,7,7] #[1,0,1,1] #[7,7,7,7]).ok = true := by decide
 example : (C17R4.fitCandidates exFitOps 0 1 1 2 #[0,2] #[0,1] #[7,7,7,7] #[1,0,1,1] #[7,7,7]).ok = false := by decide
+
+/-- E32: `pinv_array` on one 2×2 block with integer scalars (`sqrt = id`): the sweep loop ends inside its fuel with the flag set;
+with `AA` one entry short the run faults -/
+def exSvOps : C17R4.SvOps Int :=
+  { add := (· + ·), sub := (· - ·), mul := (· * ·), div := (· / ·), neg := fun a => -a, conj := id, re := id, nrm := fun a => (a.natAbs : Int),
+    sqrt := id, abs := fun a => (a.natAbs : Int), sgn := fun a => if a < 0 then -1 else 1, zero := 0, one := 1, two := 2, fifty := 50, eps := 0,
+    ofInt := id, lt := fun a b => decide (a < b), le := fun a b => decide (a ≤ b), eq := fun a b => decide (a = b) }
+example : (C17R4.pinvArray exSvOps 0 #[2,0,0,1] 1 2 false).ok = true := by decide
+example : (C17R4.pinvArray exSvOps 0 #[2,0,0] 1 2 false).ok = false := by decide
 
 /-! ### interface facts regenerated from the working tree on every run (translator tie):
 signatures and const-ness of every native kernel (which arrays a kernel may write) -/
